@@ -63,9 +63,9 @@ def stages(th):
         s += [("place2", inst(ALL_SHAPES, "W3", "VocabPlaceAll", 2)),
               ("place3", inst(ALL_SHAPES, "W3", "VocabPlaceFew", 3)),
               ("place2x2", inst('{"child", "sib"}', "W22", "VocabPlaceFew", 2)),
-              ("dep", inst('{"top", "chain"}', "W3W22", "VocabDepT", 2, maxrich=1)),
+              ("dep", inst('{"chain"}', "W3W22", "VocabDepT", 2, maxrich=1)),
               ("dep2", inst('{"child"}', "W3", "VocabDepQ", 2, maxrich=2)),
-              ("chain", inst('{"top", "child"}', "W22", "VocabChain", 4))]
+              ("chain", inst('{"child"}', "W22", "VocabChain", 4))]
     else:
         s += [("place2", inst(ALL_SHAPES, "W3", "VocabPlaceQ", 2)),
               ("dep", inst('{"chain"}', "W3", "VocabDepQ", 2, maxrich=1)),
@@ -140,7 +140,7 @@ def _cond(sigs, c):
     return sigs[c[0]]
 
 
-def _signals(cfg, subst=None):
+def _signals(cfg):
     from amaranth.hdl import Signal
     sigs = [Signal(3, name="x")]
     for i, w in enumerate(cfg["ws"]):
@@ -163,7 +163,6 @@ def build(cfg, route, order=None):
     order = list(range(len(drv))) if order is None else order
     sigs = _signals(cfg)
     d1, d2 = ClockDomain("d1"), ClockDomain("d2")
-    ports = [sigs[0]]
     extra_ports = []
     dsl = route in ("dsl", "lib")
     try:
@@ -253,7 +252,8 @@ def build(cfg, route, order=None):
                 extra_ports.append(port)
             else:
                 raise ValueError(k)
-        ports = [sigs[0]] + sigs[1:] + [d1.clk, d1.rst, d2.clk, d2.rst] + extra_ports
+        # DSL route: every signal is a port of the design; Fragment route: the signals are internal
+        ports = [sigs[0]] + (sigs[1:] if dsl else []) + [d1.clk, d1.rst, d2.clk, d2.rst] + extra_ports
         if dsl:
             text = rtlil.convert(mods[0], ports=ports)
             if "module" not in text:
